@@ -11,7 +11,10 @@ package mvs
 // (github.com/<org>/<repo>, located without dialing anything else) or on other hosts, where the resolver finds the
 // repository by dialing ever shorter prefixes of the project path; a repository reports the project path of a root-level tag as "" or "." (the real git repository says
 // "."; findProjectRepository says "" for pseudo-versions); its projects carry their configuration as dawn.toml or
-// as .dawnconfig, next to other files.  FetchRevision delivers a project the way os.CopyFS does for the real git
+// as .dawnconfig, next to other files -- or as dawn.toml NEXT TO a left-over .dawnconfig that is not the project's
+// configuration (its own at another revision, a neighbour's, one without requirements, no configuration at all):
+// a project that has a dawn.toml is configured by it (project_config.go loadConfig, module_fetch.go,
+// resolver.go resolveProject all read it first), so the reference takes the requirements from the tables.  FetchRevision delivers a project the way os.CopyFS does for the real git
 // repository: directory first, then file by file in lexical order, the configuration file in three writes (created
 // empty, a valid prefix, the rest).  Every delivery point can be made to FAIL once (transient network / disk
 // fault) or to BLOCK (a slow download observed by a second resolver, or a process killed at that point: the cache
@@ -71,7 +74,17 @@ type vcRepo struct {
 	extra     []string // the other files of every project of this repository
 	bySub     map[string]*vcProj
 	cfg       map[string][]byte // dir|rev -> configuration file contents
+	// stale: the projects of this repository carry BOTH configuration files: dawn.toml (cfgName) is the project's
+	// configuration, .dawnconfig is a left-over whose contents are of the given kind ("" = there is none)
+	stale string
+	decoy map[string][]byte // dir|rev -> contents of that .dawnconfig
 }
+
+const vcDecoyName = ".dawnconfig"
+
+// vcStaleKinds: what the left-over .dawnconfig of a project that moved to dawn.toml holds.
+var vcStaleKinds = []string{"configuration of another revision", "configuration of another project", "configuration without requirements",
+	"not a configuration"}
 
 type vcRev struct {
 	id int
@@ -253,6 +266,10 @@ func (r *vcRepo) steps(p *vcProj, rev int) []vcStep {
 	for _, n := range r.extra {
 		data[n] = []byte("# " + n + " of " + p.dir + "\n")
 	}
+	if r.stale != "" {
+		names = append(names, vcDecoyName)
+		data[vcDecoyName] = r.decoy[p.dir+"|"+strconv.Itoa(rev)]
+	}
 	for _, q := range r.nested(p) {
 		rel := strings.TrimPrefix(strings.TrimPrefix(q.sub, p.sub), "/")
 		names = append(names, path.Join(rel, r.cfgName))
@@ -260,6 +277,10 @@ func (r *vcRepo) steps(p *vcProj, rev int) []vcStep {
 		for _, n := range r.extra {
 			names = append(names, path.Join(rel, n))
 			data[path.Join(rel, n)] = []byte("# " + n + " of " + q.dir + "\n")
+		}
+		if r.stale != "" {
+			names = append(names, path.Join(rel, vcDecoyName))
+			data[path.Join(rel, vcDecoyName)] = r.decoy[q.dir+"|"+strconv.Itoa(rev)]
 		}
 	}
 	sort.Strings(names)
@@ -384,11 +405,13 @@ func vcBuild(rng *rand.Rand, u *vuUniverse, tmp string) (*vcUniverse, error) {
 		vc.projs[d] = p
 		r, ok := vc.repos[p.repo]
 		if !ok {
-			r = &vcRepo{vc: vc, addr: p.repo, bySub: map[string]*vcProj{}, cfg: map[string][]byte{}}
+			r = &vcRepo{vc: vc, addr: p.repo, bySub: map[string]*vcProj{}, cfg: map[string][]byte{}, decoy: map[string][]byte{}}
 			r.rootStyle = []string{"", "."}[rng.Intn(2)]
 			r.cfgName = "dawn.toml"
 			if rng.Intn(5) == 0 {
 				r.cfgName = ".dawnconfig"
+			} else if rng.Intn(3) == 0 {
+				r.stale = vcStaleKinds[rng.Intn(len(vcStaleKinds))]
 			}
 			r.extra = vcExtraPool[rng.Intn(len(vcExtraPool))]
 			vc.repos[p.repo] = r
@@ -416,6 +439,46 @@ func vcBuild(rng *rand.Rand, u *vuUniverse, tmp string) (*vcUniverse, error) {
 			r.cfg[d+"|"+strconv.Itoa(rev)] = b
 		}
 	}
+	// the left-over .dawnconfig files: well-formed configurations that are NOT the project's (its own at another
+	// revision, a neighbour's, one without requirements) or bytes that are no configuration at all
+	for di, d := range u.dirs {
+		r := vc.repos[vc.projs[d].repo]
+		if r.stale == "" {
+			continue
+		}
+		for rev := 1; rev <= u.nrevs; rev++ {
+			key := d + "|" + strconv.Itoa(rev)
+			own := r.cfg[key]
+			var b []byte
+			switch r.stale {
+			case "configuration of another revision":
+				for k := 1; k < u.nrevs && b == nil; k++ {
+					if o := r.cfg[d+"|"+strconv.Itoa((rev-1+k)%u.nrevs+1)]; string(o) != string(own) {
+						b = o
+					}
+				}
+			case "configuration of another project":
+				for k := 1; k < len(u.dirs) && b == nil; k++ {
+					od := u.dirs[(di+k)%len(u.dirs)]
+					if o := vc.repos[vc.projs[od].repo].cfg[od+"|"+strconv.Itoa(rev)]; string(o) != string(own) {
+						b = o
+					}
+				}
+			case "not a configuration":
+				b = []byte("\x00\x01 = = [not toml\n")
+			}
+			if b == nil { // "configuration without requirements", or nothing else differs from the project's own
+				if err := project.WriteConfigFile(scratch, &project.Config{Name: "left-over"}); err != nil {
+					return nil, err
+				}
+				var err error
+				if b, err = os.ReadFile(scratch); err != nil {
+					return nil, err
+				}
+			}
+			r.decoy[key] = b
+		}
+	}
 	return vc, nil
 }
 
@@ -432,7 +495,8 @@ func (vc *vcUniverse) describe() map[string]any {
 	}
 	repos := map[string]any{}
 	for a, r := range vc.repos {
-		repos[a] = map[string]any{"root_project_path_reported_as": r.rootStyle, "config_file": r.cfgName, "other_files": r.extra}
+		repos[a] = map[string]any{"root_project_path_reported_as": r.rootStyle, "config_file": r.cfgName, "other_files": r.extra,
+			"left_over_dawnconfig_next_to_dawn_toml": r.stale}
 	}
 	return map[string]any{"t": "CU", "id": vc.u.id, "base": vc.u.describe(), "layout": layout, "repositories": repos}
 }
